@@ -166,7 +166,8 @@ pub fn check_spend(rng: &mut Rng, acc: &mut Acc) -> Vec<String> {
     let admin = addr20("osmo", "tadmin");
     let trader = addr20("osmo", "trader");
     let t = addr32("osmo", "treasury-c13");
-    let r = w.instantiate(Kind::Treasury, &admin, &t, &json!({"admin": admin, "trader": trader, "allowed_swap_routes": []}).to_string());
+    // (with one route on the allow-list, so that clearing the list later is a change)
+    let r = w.instantiate(Kind::Treasury, &admin, &t, &json!({"admin": admin, "trader": trader, "allowed_swap_routes": [[{"pool_id": 7, "token_in_denom": "uosmo", "token_out_denom": "utia"}]]}).to_string());
     if !r.ok {
         return vec![format!("treasury instantiate refused: {}", r.err)];
     }
